@@ -318,6 +318,7 @@ func runHist(tags string, h *histIn) {
 	stat := map[string]bool{}
 	done := 0
 	histStart := time.Now()
+	histWall := time.Now().Round(0) // wall clock only: the clients' 3 s window is taken on the wall clock
 	for ri := range h.rounds {
 		r := &h.rounds[ri]
 		// what the exported getters say before the round (for the tags only)
@@ -358,10 +359,11 @@ func runHist(tags string, h *histIn) {
 			// the round did not end before its context did although every request is answered at once:
 			// recorded as it is (the clients that never probed show up as non-participants)
 			deadlineHits++
-		} else if time.Since(histStart) > 2*time.Second {
+		} else if wall := time.Now().Round(0).Sub(histWall); time.Since(histStart) > 2*time.Second || wall > 2*time.Second || wall < 0 {
 			// every earlier exchange of this history is at most this old; beyond 2 s the 3 s interleaving
 			// window of a client may have passed and the request forms are no longer determined by the
-			// history (a history normally takes some 10 ms): drop this round and end the history here
+			// history (a history normally takes some 10 ms); the same if the wall clock, which the clients
+			// use, was stepped or the machine was paused meanwhile: drop this round and end the history here
 			slowRounds++
 			break
 		}
